@@ -1281,7 +1281,7 @@ def run(ctx):
             run_case(ctx, cirq, cfg, circuit, kind, deep, ignore, checks, case_no)
     case_no = gauge_sweep_stream(ctx, cirq, mods, checks, case_no)
     case_no = symbolized_stream(ctx, cirq, checks, case_no, 8 * mult)
-    case_no = gauge_as_sweep_stream(ctx, cirq, mods, checks, case_no, 1 * mult)
+    case_no = gauge_as_sweep_stream(ctx, cirq, mods, checks, case_no, 2 * mult)
     randomized_measurements_stream(ctx, cirq, 5 * mult)
     case_no = ejectz_model_stream(ctx, cirq, checks, case_no, 60 * mult)
     failed = evaluate(ctx, checks)
